@@ -258,9 +258,44 @@ def run_in_child(hashseed, ops, wc):
 # cases
 # --------------------------------------------------------------------------------------------------
 
+def gen_misc(rng):
+    """operator paths that take user arrays of many shapes: 2-D @ 2-D variable, variable @ 2-D, element-wise products,
+    transposes, quad(x, Q), norm(M @ x + v), kldiv(p, phat, r), array bounds, robust rows with 2-D coefficient arrays"""
+    r_, c_ = rng.randint(2, 3), rng.randint(2, 3)
+    n = rng.randint(2, 3)
+
+    def mat(a, b, lo=-1.0, hi=1.0):
+        return [[gen.r2(rng, lo, hi) for _ in range(b)] for _ in range(a)]
+    ops = [{'op': 'model', 'id': 'm', 'kind': 'ro'}, {'op': 'dvar', 'id': 'X', 'm': 'm', 'shape': [r_, c_]},
+           {'op': 'dvar', 'id': 'x', 'm': 'm', 'shape': [n]}, {'op': 'dvar', 'id': 'p', 'm': 'm', 'shape': [3]},
+           {'op': 'rvar', 'id': 'z', 'm': 'm', 'shape': [2]}]
+    cons = [['<=', ['@', ['c', mat(r_, r_)], ['v', 'X']], ['c', mat(r_, c_, 3, 6)]],
+            ['<=', ['@', ['v', 'X'], ['c', mat(c_, 2)]], ['c', mat(r_, 2, 3, 6)]],
+            ['<=', ['*', ['c', mat(r_, c_, 0.5, 2)], ['v', 'X']], ['c', 5.0]],
+            ['>=', ['v', 'X'], ['c', mat(r_, c_, -3, -1)]], ['<=', ['v', 'X'], ['c', mat(r_, c_, 1, 3)]],
+            ['<=', ['@', ['c', mat(c_, c_)], ['T', ['v', 'X']]], ['c', mat(c_, r_, 4, 8)]],
+            ['>=', ['v', 'x'], ['c', [gen.r2(rng, -3, -1) for _ in range(n)]]], ['<=', ['v', 'x'], ['c', [gen.r2(rng, 1, 3) for _ in range(n)]]],
+            ['<=', ['norm', ['+', ['@', ['c', mat(2, n)], ['v', 'x']], ['c', [0.1, -0.2]]], 2], ['c', 9.0]],
+            ['>=', ['v', 'p'], ['c', [0.01] * 3]], ['==', ['sum', ['v', 'p']], ['c', 1.0]],
+            ['kl', ['v', 'p'], [0.2, 0.3, 0.5], 0.2]]
+    L = mat(n, n)
+    Q = [[sum(L[i][k] * L[j][k] for k in range(n)) + (1.0 if i == j else 0.0) for j in range(n)] for i in range(n)]
+    cons.append(['<=', ['quad', ['v', 'x'], Q], ['c', 20.0]])
+    Qn = [[-v for v in row] for row in Q]
+    cons.append(['>=', ['quad', ['v', 'x'], Qn], ['c', -25.0]])
+    cons.append(['<=', ['+', ['sum', ['*', ['c', mat(1, n)[0]], ['v', 'x']]], ['@', ['c', [gen.nz2(rng), gen.nz2(rng)]], ['v', 'z']]], ['c', 30.0]])
+    for i, c in enumerate(cons):
+        ops.append({'op': 'cons', 'id': 'k%d' % i, 'e': c})
+    ops.append({'op': 'st', 'm': 'm', 'ids': ['k%d' % i for i in range(len(cons))]})
+    obj = ['+', ['+', ['sum', ['*', ['c', mat(r_, c_)], ['v', 'X']]], ['@', ['c', [gen.nz2(rng) for _ in range(n)]], ['v', 'x']]],
+           ['+', ['@', ['c', [1.0, -2.0, 0.5]], ['v', 'p']], ['@', ['c', [0.3, -0.4]], ['v', 'z']]]]
+    ops.append({'op': 'obj', 'm': 'm', 'how': 'minmax', 'e': obj, 'set': [['<=', ['f', 'abs', ['v', 'z']], ['c', [1.0, 2.0]]]]})
+    return ops
+
+
 def gen_case(seed, cfg):
     rng = random.Random(seed)
-    src = rng.choice(cfg.get('sources', ['hist', 'hist', 'peer', 'peer', 'part']))
+    src = rng.choice(cfg.get('sources', ['hist', 'hist', 'peer', 'peer', 'part', 'misc']))
     if src == 'hist':
         from machines import hist
         hc = hist.gen_case(subseed(seed, 'h'), {'schedules': 0})
@@ -273,6 +308,10 @@ def gen_case(seed, cfg):
         ops = prog['ops']
         pool = peer.capable(prog['cls'])
         cone = {'LP': 'lp', 'MILP': 'lp', 'SOCP': 'soc', 'MISOCP': 'soc', 'EXP': 'exp'}[prog['cls']]
+    elif src == 'misc':
+        ops = gen_misc(random.Random(subseed(seed, 'm')))
+        pool = ['eco']
+        cone = 'exp'
     else:
         from machines import part
         pc = part.gen_combo(random.Random(subseed(seed, 'q')), {}, rng.choice(['dro', 'ro']))
